@@ -201,6 +201,10 @@ class PropFnTr(AntFnTr):
                 b, tb = self.expr(n.args[1])
                 if {ta, tb} <= {"vec3", "listR3"}:
                     return "(vdot %s %s)" % (a, b), "R"
+            if name == "full_like" and len(n.args) == 2 and not kw:
+                c0, t0 = self.expr(n.args[0])
+                if t0 == "R":                      # scalar mode: an array of the shape of a depth filled with v is v
+                    return self.num(n.args[1])
             if name == "any" and len(n.args) == 1 and not kw:
                 a, ta = self.expr(n.args[0])
                 if ta == "vec3":
